@@ -379,3 +379,79 @@ def size_not_narrowed(ck, S, rid):
               "(limit within one record of INT_MAX, or an existing active file of 2 GiB and more)" % (strip_tmpl(fn.name).split("::")[-1], describe(n.get("e"))[:40], n.get("type")), key="size-narrowed|%s" % strip_tmpl(fn.name).split("::")[-1])
     if not bad:
         ck.ob(rid, "(rotating sink)", True if n_reads else None, "%d reads of a file size / position, none converted to a type narrower than 64 bits" % n_reads, key="size-narrowed|none")
+
+
+def time_base_agreement(ck, S, rid):
+    """every date that enters the sink's date state (the day the active file belongs to, the date in rotated names) is taken in one time
+    base.  Local: QDate::currentDate(), QDateTime::currentDateTime(), QFileInfo::lastModified(), x.toLocalTime().  UTC:
+    currentDateTimeUtc(), x.toUTC().  The message's time() has the base of LogMessage::m_time's initialiser."""
+    F = S.F
+    LMT = "QtLogger::LogMessage::m_time"
+
+    def base_of(fn, e, depth=0):
+        e = skip_copies(deref_local(fn, e)) if isinstance(e, dict) else None
+        if not isinstance(e, dict) or depth > 6:
+            return None
+        if e.get("k") == "call":
+            c = strip_tmpl(e.get("callee") or "")
+            short = c.split("::")[-1]
+            if c in ("QDate::currentDate", "QDateTime::currentDateTime", "QTime::currentTime") or short in ("lastModified", "birthTime", "metadataChangeTime", "lastRead", "toLocalTime", "fileTime"):
+                return "local"
+            if c in ("QDateTime::currentDateTimeUtc",) or short in ("toUTC",):
+                return "utc"
+            if short in ("fromSecsSinceEpoch", "fromMSecsSinceEpoch"):
+                a = e.get("args", [])
+                return "utc" if len(a) > 1 and const_int(a[1]) == 1 else "local"
+            if c == "QtLogger::LogMessage::time":
+                # the member's default initialiser / the constructors' initialisers
+                bases = set()
+                rec = F.records.get("QtLogger::LogMessage") or {}
+                for fld in rec.get("fields", []):
+                    if fld.get("name") == "m_time" and isinstance(fld.get("init"), dict):
+                        bases.add(base_of(None, fld["init"], depth + 1))
+                for ct in F.fn_all("QtLogger::LogMessage::LogMessage"):
+                    for i in ct.inits:
+                        if i.get("member") == LMT and isinstance(i.get("e"), dict) and not ct.d.get("copyctor") and not ct.d.get("movector"):
+                            x = skip_copies(i["e"])
+                            if x.get("k") == "defaultinit":
+                                x = skip_copies(x.get("e") or {})
+                            bases.add(base_of(ct, x, depth + 1))
+                bases.discard(None)
+                return bases.pop() if len(bases) == 1 else None
+            if short in ("date", "addDays", "addSecs", "addMSecs", "toTimeSpec") and isinstance(e.get("obj"), dict):
+                return base_of(fn, e["obj"], depth + 1)
+        if e.get("k") == "cond":
+            a, b = base_of(fn, e.get("t"), depth + 1), base_of(fn, e.get("f"), depth + 1)
+            return a if a == b else None
+        if e.get("k") in ("construct", "cast", "defaultinit") and (e.get("args") or e.get("e")):
+            return base_of(fn, (e.get("args") or [e.get("e")])[0], depth + 1)
+        return None
+    fld = RP + "::m_currentLogDate"
+    found = []
+    for f in S.flat_units():
+        for n in f.all_nodes():
+            rhs = None
+            if n.get("k") == "binop" and n.get("op") == "=" and is_this_field(n.get("lhs"), fld):
+                rhs = n.get("rhs")
+            elif n.get("k") == "call" and n.get("ck") == "operator" and n.get("op") == "=" and n.get("args") and is_this_field(n["args"][0], fld):
+                rhs = n["args"][1]
+            if rhs is None:
+                continue
+            if any(is_this_field(x, fld) for x in walk(rhs)):
+                continue
+            found.append((f, n, base_of(f, rhs)))
+    seen, uniq = set(), []
+    for f, n, b in found:
+        k = (n.get("l"), n.get("c"))
+        if k not in seen:
+            seen.add(k)
+            uniq.append((f, n, b))
+    bases = {b for _, _, b in uniq if b}
+    unk = [(f, n) for f, n, b in uniq if b is None]
+    if len(bases) > 1:
+        f_, n_, b_ = [x for x in uniq if x[2] == "utc"][0]
+        ck.ob(rid, sitestr(f_, n_), False, "the day of the active file is taken in two time bases: %s assigns a UTC date (%s) while other sites assign local dates (QDate::currentDate(), the file's modification time): "
+              "whenever the local date differs from the UTC date, a restart rotates spuriously and rotated names stop being monotone in rotation order, so retention deletes a newer file and keeps an older one" %
+              (strip_tmpl(f_.name).split("::")[-1], describe(n_.get("rhs") or n_["args"][1])[:40]), key="date-state|time-base")
+    else:
+        ck.ob(rid, sitestr(S.m["rotateIfNeeded"]), None if (unk and not bases) else True, "the %d assignments of the active file's day all take %s dates%s" % (len(uniq), "/".join(sorted(bases)) or "?", " (%d not classified)" % len(unk) if unk else ""), key="date-state|time-base")
